@@ -140,7 +140,16 @@ def _config_scenario(rng, opts=None):
     with_imports = rng.random() < o["imports"]
     if with_imports:
         packages, pkgfiles, ctypes = add_import_surface(rng, ir)
-    xml = G.render_schema(ir)
+    after = []
+    if with_imports and len([p_ for p_ in packages
+                             if p_.startswith("zcsim_p") and p_[7:].isdigit()
+                             ]) == 2 and rng.random() < 0.3 and \
+            "zcsim_p1" not in pkgfiles.get(pkg_file_key("zcsim_p0"), ""):
+        # the application schema itself imports component package 0: a
+        # '%import zcsim_p0' in a text is then a legal no-op, and the next
+        # %import is the first one that really extends the vocabulary
+        after = [("package", "zcsim_p0")]
+    xml = G.render_schema(ir, imports_after=after)
     names = []
     lines = G.gen_body(rng, ir, "$top", 0, names,
                        {"full": rng.choice([0.5, 0.8, 1.0])})
